@@ -4,7 +4,8 @@ import operator
 ID = 'C05'
 FUNCTIONS = [('devices', 'DAC'), ('devices', 'SAMPLER'), ('typing', 'global_variables.__call__'),
              ('typing', 'electrical_signal.__getitem__'), ('typing', 'electrical_signal.__gt__')]
-BOUNDS = {'quick': 'bits: every 0/1 pattern of 1..3 slots (symbolic); sps in {1,2,3,5,8}; Vout, bias symbolic in (-60,60); sampling instant every k in [0,sps)',
+BOUNDS = {'call-history differential': 'for the blocks of this property registered in vf/history.py (concrete orders / bandwidths / gains / gv configurations, symbolic samples): the call repeated in a session that first ran it with one parameter or one gv setting changed equals the call in a fresh library instance',
+          'quick': 'bits: every 0/1 pattern of 1..3 slots (symbolic); sps in {1,2,3,5,8}; Vout, bias symbolic in (-60,60); sampling instant every k in [0,sps)',
           'thorough': 'up to 4 slots; sps in {1,...,9,11,16,17,32}',
           'gaussian': 'grid sps in {8,9,16} x T in {sps/2, sps, 2*sps} x m in {1,2,4}: pulse profile evaluated with libm doubles, '
                       'affine dependence on Vout/bias decided symbolically'}
@@ -206,4 +207,6 @@ def configs(tier):
                 out.append((f'gaussian-sps{sps}-T{T}-m{m}-{ptn}', scen_gaussian, dict(sps=sps, T=T, m=m, pattern=ptn), {'validate': 1}))
     for i, (txt, shape) in enumerate((('0110', 'nrz'), ('1 0,1', 'rz'))):
         out.append((f'str-{i}', scen_strbits, dict(text=txt, shape=shape, sps=2), {}))
+    from vf import history as _history        # call-history differential of this property's blocks (vf/history.py)
+    out += _history.configs_for('C05')
     return out
